@@ -460,6 +460,11 @@ class Session:
             if want is not None:
                 self.count("E1b_cause_present")
                 got = out1[1]["cls"] if out1[0] == "exc" else "returned"
+                if got == "ValueError" and want == "IncompatibleArgsError" and not _jointly_feasible(can):
+                    # two documented causes are present at once (interface problem AND an unsatisfiable system):
+                    # the statement fixes no precedence between them, so either documented class is accepted
+                    self.count("E1b_two_causes_either_class_accepted")
+                    got = want
                 if got != want:
                     self.violate(i, name, "E1b", {"what": "cause decidable from names requires %s" % want, "got": got, "args": can}, "want=%s got=%s" % (want, got))
 
@@ -602,6 +607,40 @@ class Session:
             "plan": self.plan,
             "zero_terms": self.stats.get("zero_coeff_terms_in_pool", 0),
         }
+
+
+def _jointly_feasible(can_args: Dict[str, Any]) -> bool:
+    """Harness-side LP (real scipy, not the seam): are all constraints of all contract / list arguments satisfiable together?
+    Unknown counts as infeasible (i.e. the stricter E1b verdict is not applied)."""
+    import numpy as np  # noqa: WPS433
+
+    rows = []
+    for v in can_args.values():
+        if isinstance(v, dict) and "C" in v:
+            rows.extend(v["C"][2]["TL"])
+            rows.extend(v["C"][3]["TL"])
+        elif isinstance(v, dict) and "TL" in v:
+            rows.extend(v["TL"])
+    names: List[str] = []
+    for t in rows:
+        for k, _c in t["T"]:
+            if k not in names:
+                names.append(k)
+    if not rows:
+        return True
+    if not names:
+        return all(float.fromhex(t["c"][1]) >= 0 for t in rows)
+    a = np.zeros((len(rows), len(names)))
+    b = np.zeros(len(rows))
+    for i, t in enumerate(rows):
+        for k, c in t["T"]:
+            a[i, names.index(k)] = float.fromhex(c[1])
+        b[i] = float.fromhex(t["c"][1])
+    try:
+        res = sm.REAL_LINPROG(c=np.zeros(len(names)), A_ub=a, b_ub=b, bounds=(None, None))
+    except Exception:  # noqa: WPS429
+        return False
+    return int(res.status) in (0, 3)
 
 
 def _short(out: Any) -> Any:
